@@ -205,11 +205,11 @@ pub fn scenarios(tier: Tier) -> Vec<Scenario> {
     add(vec![c(if tier.is_quick() { 40 } else { 80 }, 3, 0, false, false)], if tier.is_quick() { 0 } else { 1 });
     add(vec![c(2, 45, 0, true, false), c(40, 0, 1, false, true)], 0);
     if tier.is_quick() {
-        add(vec![c(1, 1, 0, false, false)], 2);
-        add(vec![c(0, 2, 0, true, false)], 2);
-        add(vec![c(2, 0, 0, true, true)], 2);
-        add(vec![c(1, 0, 0, false, false), c(0, 1, 1, true, false)], 1);
-        add(vec![c(0, 1, 0, true, false), c(1, 1, 1, false, true)], 1);
+        add(vec![c(1, 1, 0, false, false)], 3);
+        add(vec![c(0, 2, 0, true, false)], 3);
+        add(vec![c(2, 0, 0, true, true)], 3);
+        add(vec![c(1, 0, 0, false, false), c(0, 1, 1, true, false)], 2);
+        add(vec![c(0, 1, 0, true, false), c(1, 1, 1, false, true)], 2);
     } else {
         for pre in 0..=2 {
             for post in 0..=2 {
